@@ -33,7 +33,7 @@ enum { K_PUSH, K_PUSH_TEXT, K_POP, K_POP_EMPTY, K_SYST, K_SYST_EMPTY, K_CLEAR, K
        K_AUTOCUT_255, K_AUTOCUT_FULL, K_SYST_LIMITED, K_SYST_EXACT, K_NOTEXT_OK,
        K_STRNDUP, K_FREE_TEXT_LIB, K_FREE_TEXT_CLIENT, K_FREE_NULL, K_INJECTED, K_INJECT_UNREACHED, K_ALLOCFAIL_QUEUED, K_ALLOCFAIL_ON_OVERFLOW,
        K_DROP_OVERFLOW_TEXT, K_DROP_CLEAR_TEXT, K_CLIENT_HELD_ACROSS_OP, K_QUIESCENT_OK, K_HIST, K_HIST_FAULT, K_WRAP, K_CB_OK, K_CB_DIFF,
-       K_MODE_EXACT, K_MODE_LONGER, K_MODE_NULSHORT, K_MODE_AUTO, K_LEDGER_CHECKS, K__N };
+       K_MODE_EXACT, K_MODE_LONGER, K_MODE_NULSHORT, K_MODE_AUTO, K_LEDGER_CHECKS, K_REQUEUE, K__N };
 static const char * const kname[K__N] = { "op.push", "op.push_text", "op.errorpop", "op.errorpop_on_empty", "op.syst_err", "op.syst_err_on_empty", "op.clear", "op.count_api", "op.count_query",
     "overflow.events", "overflow.marker_popped",
     "text.returned_intact_errorpop", "text.returned_intact_syst_err", "text.with_quote_roundtrip", "text.empty_as_pointer", "text.empty_as_null", "text.empty_semicolon", "text.empty_no_semicolon",
@@ -42,7 +42,7 @@ static const char * const kname[K__N] = { "op.push", "op.push_text", "op.errorpo
     "fault.error_queued_without_text", "fault.injected_on_overflowing_push",
     "ownership.text_dropped_on_overflow", "ownership.text_dropped_on_clear", "ownership.client_held_across_operation", "ownership.quiescent_ledger_empty",
     "history.runs", "history.runs_with_fault", "history.ring_wraparound", "callback.as_expected", "callback.differs",
-    "push.explicit_len_unterminated", "push.explicit_len_longer_source", "push.explicit_len_beyond_nul", "push.automatic_len", "ledger.conservation_checks" };
+    "push.explicit_len_unterminated", "push.explicit_len_longer_source", "push.explicit_len_beyond_nul", "push.automatic_len", "ledger.conservation_checks", "op.queue_storage_replaced_on_live_context" };
 static uint64_t kval[K__N];
 static uint64_t evals_local;
 #define CNT(k) (kval[k]++)
@@ -139,7 +139,7 @@ void __wrap_free(void * p) {
 }
 
 /* ---- histories ------------------------------------------------------------------------------------------- */
-enum { OP_PUSH, OP_PUSHT, OP_POP, OP_SYST, OP_CLEAR, OP_COUNT, OP__N };
+enum { OP_PUSH, OP_PUSHT, OP_POP, OP_SYST, OP_CLEAR, OP_COUNT, OP_REQUEUE, OP__N };
 enum { M_EXACT, M_LONGER, M_NULSHORT, M_AUTO, M__N };
 typedef struct { uint8_t kind, mode, fail, aux; int16_t code; const char * text; size_t len; } op_t;
 
@@ -155,6 +155,7 @@ typedef struct {
     const op_t * ops; int nops, cur;
     int faults, dead;
     uint64_t tag;
+    scpi_error_t * own_q; /* queue storage installed by OP_REQUEUE (released at the end of the history) */
 } hist_t;
 
 static const scpi_command_t cmds[] = {
@@ -163,7 +164,7 @@ static const scpi_command_t cmds[] = {
     SCPI_CMD_LIST_END
 };
 
-static const char * const opnames[OP__N] = { "push", "push", "errorpop", "SYST:ERR?", "clear", "count" };
+static const char * const opnames[OP__N] = { "push", "push", "errorpop", "SYST:ERR?", "clear", "count", "new-queue-storage" };
 static const char * const modenames[M__N] = { "len=exact,unterminated", "len=exact,longer-source", "len>strlen", "len=auto" };
 
 static void describe(const hist_t * h, vh_buf_t * b) {
@@ -443,6 +444,21 @@ static int run_history(vh_ctx_t * v, int N, const op_t * ops, int nops, int hold
             case OP_POP: do_pop(&h); break;
             case OP_SYST: do_syst(&h, o); break;
             case OP_CLEAR: do_clear(&h); break;
+            case OP_REQUEUE:
+                /* the application gives the queue new storage at run time (grows it): the old array is released FIRST, then SCPI_ErrorInit is
+                 * called on the live context. Only done while no queued entry owns a text (those texts would be the application's to release). */
+                if (rq_texts(&h.q, F_OPTIONAL, 0) + rq_texts(&h.q, F_OPTIONAL, F_OPTIONAL) == 0) {
+                    scpi_error_t * nq;
+                    led.on = 0;
+                    nq = (scpi_error_t *) malloc(sizeof(scpi_error_t) * (size_t) N);
+                    if (h.own_q) { memset(h.own_q, 0xDD, sizeof(scpi_error_t) * (size_t) N); free(h.own_q); }
+                    memset(nq, 0xEE, sizeof(scpi_error_t) * (size_t) N);
+                    led.on = 1;
+                    SCPI_ErrorInit(v->ctx, nq, (int16_t) N);
+                    h.own_q = nq; rq_init(&h.q, N);
+                    CNT(K_REQUEUE);
+                }
+                break;
             default: do_count(&h); break;
         }
         after_op(&h, o);
@@ -464,6 +480,7 @@ static int run_history(vh_ctx_t * v, int N, const op_t * ops, int nops, int hold
     led_flush_quarantine();
 #endif
     led.on = 0; led.fail_at = 0;
+    if (h.own_q) { SCPI_ErrorInit(v->ctx, qmem, (int16_t) N); free(h.own_q); }
     return h.faults;
 }
 
@@ -611,7 +628,7 @@ static void p1_run(uint64_t idx, vh_rng_t * rng) {
         } else {
             switch (vh_below(rng, 12)) {
                 case 0: o->kind = OP_CLEAR; if (vh_chance(rng, 2, 3)) o->kind = OP_COUNT; break;
-                case 1: o->kind = OP_COUNT; break;
+                case 1: o->kind = vh_chance(rng, 1, 3) ? OP_REQUEUE : OP_COUNT; break;
                 case 2: case 3: case 4: case 5: case 6: o->kind = OP_POP; break;
                 default: o->kind = OP_SYST; o->aux = (uint8_t) vh_below(rng, 4); break;
             }
@@ -705,7 +722,7 @@ int main(int argc, char ** argv) {
     };
     vh_require("overflow.events");
     vh_require("overflow.marker_popped");
-    vh_require("history.ring_wraparound");
+    vh_require("history.ring_wraparound"); vh_require("op.queue_storage_replaced_on_live_context");
     vh_require("op.errorpop_on_empty");
     vh_require("op.syst_err_on_empty");
 #if CFG_TEXT
